@@ -350,7 +350,27 @@ func (r *Report) checkKnown(e *Enc, ob *Obligation, kf *knownFinding) (bool, str
 	if res2.Status == "unsat" {
 		return false, "recorded class no longer fails, but the obligation does"
 	}
-	return true, fmt.Sprintf("proved outside class {%s} by %s in %dms; class still fails (%s)", kf.Class, res.Solver, res.Ms, res2.Status)
+	replayNote := ""
+	if !r.Opts.noReplay {
+		// the finding is re-confirmed on the real code on every run where a replay exists
+		in2 := *ob
+		in2.Goal = in.Goal
+		in2.Extra = in.Extra
+		in2.Res = res2
+		dir := filepath.Join(verifDir, "replays", r.Prop.ID)
+		in2.Name = ob.Name
+		path := r.writeReplay(dir, e, &in2)
+		npath := strings.TrimSuffix(path, ".json") + ".known-finding.json"
+		os.Rename(path, npath)
+		if res2.Status == "sat" || fileExists(filepath.Join(verifDir, "replay", sanitize(ob.Name)+".go")) {
+			if r.replay(npath, e, &in2) {
+				replayNote = "; replayed on the real code: confirmed (" + npath + ")"
+			} else {
+				replayNote = "; replay on the real code did not confirm (" + npath + ")"
+			}
+		}
+	}
+	return true, fmt.Sprintf("proved outside class {%s} by %s in %dms; class still fails (%s)%s", kf.Class, res.Solver, res.Ms, res2.Status, replayNote)
 }
 
 func fileExists(p string) bool {
